@@ -46,7 +46,7 @@ def _filt_indent_tab(text: str, count: Count = Count(1), indent_first: bool = Fa
 
 
 def _filt_escape_dq(text: str) -> str:
-    return text.replace('\\', '\\\\').replace('"', '\\"')
+    return text.replace('\\', '\\\\').replace('"', '\\"').replace('\n', '\\n')
 
 
 _Filter = Callable[..., Any]
